@@ -62,7 +62,20 @@ def main():
         patch = os.path.join(dst, "patch.diff")
         rc, o = sh(["git", "apply", "--check", patch], cwd=scratch)
         ran["patch_applies"] = rc == 0
-        if rc != 0:
+        ported = False
+        if rc != 0 and noconfirm:
+            # /repo has moved on since the seed was made (fix commits): port the change with
+            # context fuzz; it must still build
+            rc2, o2 = sh("patch -p1 --fuzz=3 --no-backup-if-mismatch < " + patch, cwd=scratch)
+            rc3, o3 = sh(["go", "build", "./..."], cwd=scratch)
+            if rc2 == 0 and rc3 == 0:
+                ported = True
+                meta["ported_to"] = sh(["git", "-C", "/repo", "rev-parse", "--short", "HEAD"])[1].strip()
+                print("patch ported to HEAD with context fuzz")
+            else:
+                print("patch does not apply, porting failed:\n" + o + o2 + o3)
+                return finish(dst, meta, {}, {})
+        elif rc != 0:
             print("patch does not apply:\n" + o)
             return finish(dst, meta, ran, {})
         # demo files: test files in OUT are placed where the worktree has them
@@ -98,7 +111,7 @@ def main():
             for pl in ("plugins/device-injector", "plugins/ulimit-adjuster"):
                 rc, o = sh(["go", "test", "-vet=off", "-count=1", "./..."], cwd=os.path.join(scratch, pl), timeout=1800)
                 ran["existing_%s_tests_pass_with_change" % pl.split("/")[1]] = rc == 0
-        else:
+        elif not ported:
             sh(["git", "apply", patch], cwd=scratch)
         results = {}
         for p in props:
